@@ -41,3 +41,16 @@ Proof.
   rewrite R1, R2, W1, W2, (spec_reads_alpha rho (e_cfg e) s Ha), spec_writes_rename. split; reflexivity.
 Qed.
 Print Assumptions c08_tables_alpha_on_core.
+
+(** ... and at COLUMN level on the single-SELECT fragment (Lemma B + alpha-equivalence of the specification's flows,
+    Tree/LemmaBCorollaries.v): the renamed statement needs no guard of its own beyond "the new names are plain identifiers". *)
+From SV Require Import Tree.LemmaB Tree.LemmaBProofs Tree.LemmaBCorollaries Ident.Escape.
+
+Theorem c08_columns_alpha_on_single_select : forall rho n1 n2 e s,
+  admissible rho s -> admissible_cols rho (e_cfg e) s ->
+  (forall a, In a (stmt_locals s) -> id_ok (rho a) = true) ->
+  noise_ok n1 = true -> noise_ok n2 = true -> env_ok e = true ->
+  stmt_ok s = true -> sshape s = true -> colshape s = true -> sel_tables_syntactic s = true ->
+  script_pairs e false [] [r_stmt n1 (rename_stmt rho (stmt_locals s) s)] = script_pairs e false [] [r_stmt n2 s].
+Proof. exact cols_alpha_on_single_select_strong. Qed.
+Print Assumptions c08_columns_alpha_on_single_select.
